@@ -48,7 +48,7 @@ open OxiVerif.Spec
    False: see `C09_witness_lib_*`. -/
 
 /-- T1 on the safe fragment: ASCII names (any ASCII byte: white space, delimiters, `#`, controls
-    included), no `i g /R` look-alike after an integer, integers inside `i64` (the type of
+    included), integers inside `i64` (the type of
     `Object::Integer`; reals of any magnitude), references
     with object number ≤ `u32::MAX` (the type of `ObjectId`) and generation ≤ `u16::MAX`. -/
 theorem C09_lib_roundtrip_partial (v : Obj) (rest : List Nat) (fuel : Nat)
@@ -140,17 +140,30 @@ theorem C09_witness_lib_name_space_ne :
 theorem C09_witness_lib_name_hash :
     ObjParser.parse (serUnescaped (.name [65, 35, 52, 49]) ++ [32]) = .ok (.name [65, 65], [32]) := by rfl
 
-/-- counter-witness: the array `[1 0 /R]` (two integers and the *name* R) is read as the single
-    reference `1 0 R` -/
+/-- the former witness reads back: `[1 0 /R]` is two integers and the name `R` -/
+example : ObjParser.parse (ser (.arr [.int 1, .int 0, .name [82]]) ++ [10, 62, 62])
+    = .ok (.arr [.int 1, .int 0, .name [82]], [10, 62, 62]) := by rfl
+
+/-- … while a genuine reference in the same place still is one -/
+example : ObjParser.parse (ser (.arr [.ref 1 0, .name [82]]) ++ [10, 62, 62])
+    = .ok (.arr [.ref 1 0, .name [82]], [10, 62, 62]) := by rfl
+
+/-- regression witness (C09-F3): with any `Token::Name("R")` accepted as the reference keyword
+    (`intArmAnyR`), the integer 1 followed by ` 0 /R]` was read as the reference `1 0 R` -/
 theorem C09_witness_lib_ref_lookalike :
-    ObjParser.parse (ser (.arr [.int 1, .int 0, .name [82]]) ++ [10, 62, 62])
-      = .ok (.arr [.ref 1 0], [10, 62, 62]) := by rfl
+    ObjParser.intArmAnyR 1 [32, 48, 32, 47, 82, 93, 10, 62, 62] = .ok (.ref 1 0, [93, 10, 62, 62]) ∧
+    ObjParser.intArm 1 [32, 48, 32, 47, 82, 93, 10, 62, 62]
+      = .ok (.int 1, [32, 48, 32, 47, 82, 93, 10, 62, 62]) := by
+  constructor <;> rfl
 
 theorem C09_witness_lib_ref_lookalike_ne :
-    ObjParser.parse (ser (.arr [.int 1, .int 0, .name [82]]) ++ [10, 62, 62])
-      ≠ .ok (readBack (sortDicts (.arr [.int 1, .int 0, .name [82]])), [10, 62, 62]) := by
-  rw [C09_witness_lib_ref_lookalike]
-  simp [readBack, readBackList, sortDicts, sortDictsList]
+    ObjParser.intArmAnyR 1 [32, 48, 32, 47, 82, 93, 10, 62, 62]
+      ≠ .ok (.int 1, [32, 48, 32, 47, 82, 93, 10, 62, 62]) := by
+  rw [C09_witness_lib_ref_lookalike.1]; simp
+
+/-- the bytes after the 1 in the witness are those the writer emits for `[1 0 /R]` -/
+example : ser (.arr [.int 1, .int 0, .name [82]]) ++ [10, 62, 62]
+    = 91 :: 49 :: [32, 48, 32, 47, 82, 93, 10, 62, 62] := by rfl
 
 /-- `readBackLib` is `readBack` on every tree without a real of magnitude ≥ 2^63 written as an
     integer token -/
